@@ -1,6 +1,6 @@
 ---------------------------- MODULE Stake_Trace ----------------------------
 (* C05 binding over recorded histories (projection "stake" + "dispute").       *)
-EXTENDS Stake, Json, TLC
+EXTENDS Stake, Json, TLC, TraceLib
 CONSTANT KNOWN
 Trace == ndJsonDeserialize("trace.ndjson")
 VARIABLES l, viol, hist, disp
@@ -50,7 +50,7 @@ Step ==
         /\ ledB' = st.bondedtok /\ ledN' = st.notbondedtok ++ st.unbonding
         /\ poolB' = st.poolbonded /\ poolN' = st.poolnotbonded
         /\ disp' = e.post.dispute.disputes
-        /\ viol' = IF reset \/ Cardinality(viol) >= 40 THEN viol ELSE viol \cup { <<l, c>> : c \in Check(e) }
+        /\ viol' = IF reset THEN viol ELSE AddViol(viol, l, Check(e))
         /\ l' = l + 1
 Spec == Init /\ [][Step]_tvars
 Done == (l = Len(Trace) + 1) => PrintT(<<"VIOLS", ToJson(viol)>>)
